@@ -23,6 +23,7 @@ import (
 	treetypes "github.com/agglayer/aggkit/tree/types"
 	aggkittypes "github.com/agglayer/aggkit/types"
 	"github.com/ethereum/go-ethereum/common"
+	"github.com/ethereum/go-ethereum/crypto"
 
 	"verifharness/hlib"
 )
@@ -60,6 +61,9 @@ type Op struct {
 	// FaultAt >= 0: a TRANSIENT storage fault (removed after a while) hits block Blocks[FaultAt] with Fault
 	Blocks  []Op `json:"blocks,omitempty"`
 	FaultAt int  `json:"fault_at,omitempty"`
+	// prestate: synthetic exit tree of N (>= 1) equal leaves X (hex32), recorded at block Num: root row + the 32 path nodes
+	N uint32 `json:"n,omitempty"`
+	X string `json:"x,omitempty"`
 }
 
 type In struct {
@@ -216,6 +220,7 @@ type runner struct {
 	path      string
 	s         *bridgesync.BridgeSync
 	allLeaves []string
+	rootLo    int64             // first deposit count queried in snapshots (n-1 after a synthetic pre-state of n leaves)
 	leaves    map[uint32]string // dc -> leaf hash of the LAST processed bridge with that dc
 	maxDC     int64
 	proofs    string
@@ -244,7 +249,7 @@ func (r *runner) snap() Snap {
 		return sn
 	}
 	seenRoots := []treetypes.Root{}
-	for i := int64(0); i <= r.maxDC+1; i++ {
+	for i := r.rootLo; i <= r.maxDC+1; i++ {
 		root, err := s.GetExitRootByIndex(ctx, uint32(i))
 		ro := RootObs{Idx: uint32(i)}
 		if err == nil {
@@ -320,6 +325,39 @@ func sortRows(rs []RowObs) {
 	})
 }
 
+// ---- synthetic pre-state for high leaf indices ----
+func node2(l, r common.Hash) common.Hash { return crypto.Keccak256Hash(l[:], r[:]) }
+
+func (r *runner) prestate(op Op) {
+	x := common.HexToHash(op.X)
+	last := op.N - 1
+	full := x // root of a full height-h subtree of x's
+	zero := common.Hash{}
+	cur := x
+	db := bridgesync.VerifDB(r.s)
+	exec := func(q string, a ...any) {
+		if _, err := db.Exec(q, a...); err != nil {
+			panic(fmt.Sprintf("prestate %q: %v", q, err))
+		}
+	}
+	exec(`INSERT INTO block (num, hash) VALUES ($1, $2)`, op.Num, common.BigToHash(new(big.Int).SetUint64(op.Num+1000)).String())
+	for h := 0; h < 32; h++ {
+		var l, rr common.Hash
+		if last&(1<<uint(h)) != 0 {
+			l, rr = full, cur
+		} else {
+			l, rr = cur, zero
+		}
+		p := node2(l, rr)
+		exec(`INSERT OR IGNORE INTO rht (hash, left, right) VALUES ($1, $2, $3)`, p.String(), l.String(), rr.String())
+		cur = p
+		full = node2(full, full)
+		zero = node2(zero, zero)
+	}
+	exec(`INSERT INTO root (hash, position, block_num, block_position) VALUES ($1, $2, $3, 0)`, cur.String(), last, op.Num)
+	r.rootLo = int64(last)
+}
+
 // ---- real EVMDriver fed from a pre-filled buffer ----
 type bufDownloader struct{ blocks []aggsync.EVMBlock }
 
@@ -385,7 +423,7 @@ func (r *runner) drive(op Op) string {
 	done := make(chan struct{})
 	go func() { drv.Sync(ctx); close(done) }()
 	// wait until the last block is recorded or nothing moves any more
-	deadline := time.Now().Add(3 * time.Second)
+	deadline := time.Now().Add(15 * time.Second)
 	var last uint64
 	stable := 0
 	for time.Now().Before(deadline) {
@@ -397,7 +435,7 @@ func (r *runner) drive(op Op) string {
 		}
 		if n == last {
 			stable++
-			if stable > 15 { // 300 ms without progress: the driver has stopped
+			if stable > 60 { // 1.2 s without progress: the driver has stopped
 				break
 			}
 		} else {
@@ -489,6 +527,9 @@ func runOps(dir string, name string, ops []Op, proofs string, maxDC int64) (res 
 			res = append(res, "ok")
 		case "drive":
 			res = append(res, r.drive(op))
+		case "prestate":
+			r.prestate(op)
+			res = append(res, "ok")
 		case "reset": // twin only: start again from an empty database
 			bridgesync.VerifClose(r.s)
 			for _, sfx := range []string{"", "-wal", "-shm"} {
